@@ -13,7 +13,7 @@ from fractions import Fraction
 import common as C
 
 ID = "C14"
-COQ_TARGETS = ["Properties/C14.vo"]
+COQ_TARGETS = ["Properties/C14.vo", "GenFacts/EvalSrcFacts.vo"]
 MODEL_TARGETS = ["Model/Session.vo"]
 IMPORTS = "From Ka Require Import Model.Session.\nOpen Scope string_scope.\n"
 
